@@ -22,6 +22,56 @@ import re
 import sys
 
 FILES = ["breakpad-symbols/src/lib.rs", "breakpad-symbols/src/http.rs"]
+CRATE_DIR = "breakpad-symbols/src"          # the census and the sinks look at EVERY .rs file below it
+
+# ---- the callee census (round 5, second pass) -------------------------------------------------------------------
+# A file whose non-test code mentions one of these words can reach the file system / build paths: in such a file EVERY
+# callee name (function path, method, macro) must be on the reviewed list KNOWN_CALLEES (or be a fn defined in the crate, or a
+# constructor: last path segment capitalised); an unknown one aborts the translator.
+PATH_WORDS = (r"\b(fs|tempfile|env|process|os)\s*::|\b(File|OpenOptions|Path|PathBuf|DirBuilder|Command)\s*::\s*[a-z_]|"
+              r"\b(Path|PathBuf|NamedTempFile|TempDir|TempPath|OsStr|OsString|DirEntry|ReadDir|Mmap|memmap2?|libc|nix|AsRef)\b|"
+              r"\buse\s+(std\s*::\s*)?(fs|path|env|process|os|tempfile)\b")
+# callee names that reach the file system wherever they appear (any file of the crate): each occurrence must be one of the sinks
+# whose path provenance is derived below (g_fs_sinks), else abort
+SINK_PREFIXES = ("fs::", "File::", "OpenOptions::", "NamedTempFile::", "tempfile::", "Path::", "PathBuf::", "env::", "process::",
+                 "Command::", "TempDir::", "DirBuilder::", "Builder::tempfile", "Builder::tempdir")
+SINK_PATHS = {"SymbolFile::from_file"}
+SINK_METHODS = {".exists", ".is_file", ".is_dir", ".read_dir", ".canonicalize", ".metadata", ".symlink_metadata", ".read_link",
+                ".try_exists", ".persist", ".persist_noclobber", ".keep", ".into_temp_path", ".create_dir", ".create_dir_all",
+                ".create_new", ".tempfile_in", ".tempdir_in", ".set_current_dir", ".open", ".create", ".from_file"}
+# methods that build or change a path in place when the receiver is a Path / PathBuf (and are harmless on a String / Vec):
+# every occurrence outside the compiled builders is listed in g_path_edits with the kind of its receiver
+EDIT_METHODS = {".push", ".pop", ".set_file_name", ".set_extension", ".with_file_name", ".with_extension", ".extend", ".clear",
+                ".as_mut_os_string", ".truncate", ".insert_str", ".add_extension", ".with_added_extension"}
+KNOWN_CALLEES = set("""
+.add_inline_frame .and_then .append_pair .as_bytes .as_mut .as_ref .as_slice .as_str .available_data .available_space .base_address
+.binary_search_by_key .breakpad .build .bytes .cache_default .capacity .chars .checked_sub .chunk .clone .clone_from .cloned .code_file
+.code_identifier .collect .consume .data .debug_file .debug_identifier .default .display .ends_with .err .error_for_status .exists
+.file_entries .file_name .fill .fill_symbol .filter_map .find .find_nearest_public .finish .folder_entries .get .get_inlinee_at_depth
+.get_innermost_sourceloc .get_instruction .get_outermost_sourceloc .get_symbols .grow .headers .insert .into_iter .into_owned
+.is_ascii_alphabetic .is_dir .is_empty .is_file .is_none .is_some_and .iter .join .last .len .locate_file .locate_file_internal
+.locate_symbols .lock .lookup_debug_info_by_code_info .map .map_err .map_or .name .next .nth .ok .ok_or .ok_or_else .or .or_else .parent
+.parse_more .persist_noclobber .pop .position .push .push_str .query_pairs_mut .ranges_values .read .read_file .redirect .rev .rsplit
+.saturating_mul .send .set_function .set_source_file .space .split .starts_with .status .strip_prefix .timeout .to_lowercase .to_path_buf
+.to_str .to_string .to_string_lossy .to_uppercase .unwrap .unwrap_or .unwrap_or_default .walk_frame .write_all Arc::new Box::new
+Buffer::with_capacity Cabinet::new CacheMap::default Client::builder Cow::Borrowed Cow::from Cursor::new DebugId::from_str
+Default::default Error::from Error::new Error::other File::open FutMutex::new HashMap::new Mutex::default NamedTempFile::new_in
+Policy::none Self::parse SimpleFrame::with_instruction SimpleModule::from_basic_info SimpleSymbolSupplier::new String::from
+String::with_capacity SymbolFile::from_bytes SymbolFile::from_file SymbolFile::parse_async SymbolParser::new SymbolStats::default
+Url::parse allow callback cfg cfg! crate::basename debug! derive doc error f fields format! fs::create_dir_all fs::metadata
+fs::remove_file io::copy matches! not skip trace! tracing::instrument walker::walk_with_stack_cfi walker::walk_with_stack_win_fpo
+walker::walk_with_stack_win_framedata warn!
+""".split())
+KEYWORDS = {"if", "while", "match", "for", "return", "in", "let", "as", "mut", "async", "move", "loop", "else", "impl", "dyn", "where",
+            "pub", "crate", "super", "use", "fn", "unsafe", "ref", "break", "continue", "await", "struct", "enum", "type", "trait", "mod",
+            "const", "static", "self", "Self"}
+
+
+def blank_strings(src):
+    """string literals replaced by blanks of the same length (positions stay aligned with the unblanked text)"""
+    def rep(m):
+        return '"' + " " * (len(m.group(0)) - 2) + '"'
+    return re.sub(r'"(?:[^"\\]|\\.)*"', rep, src, flags=re.S)
 BUILDERS = {"lookup": "BLookup", "breakpad_sym_lookup": "BBreakpadSym", "binary_lookup": "BBinary",
             "extra_debuginfo_lookup": "BExtraDebuginfo"}
 BUILDER_FNS = {"leafname", "safe_leafname", "replace_or_add_extension", "breakpad_sym_lookup", "code_info_breakpad_sym_lookup",
@@ -173,7 +223,14 @@ def receiver_start(s, dot):
 class Flow:
     def __init__(self, repo):
         self.srcs, self.fns = {}, []
-        for f in FILES:
+        root = os.path.join(repo, CRATE_DIR)
+        files = list(FILES)
+        for d, _, names in sorted(os.walk(root)):
+            for nm in sorted(names):
+                rel = os.path.relpath(os.path.join(d, nm), repo)
+                if nm.endswith(".rs") and rel not in files:
+                    files.append(rel)
+        for f in files:
             p = os.path.join(repo, f)
             try:
                 src = strip_comments(open(p).read())
@@ -182,7 +239,9 @@ class Flow:
             cut = len(src)
             for m in re.finditer(r"\n\s*#\[(test|cfg\(test\))\]", src):
                 cut = min(cut, m.start())
-            label = os.path.basename(f)
+            label = os.path.relpath(f, CRATE_DIR)
+            if label in self.srcs:
+                die("two files with the label %s" % label)
             self.srcs[label] = src[:cut]
             self.fns += functions(label, src[:cut])
 
@@ -464,17 +523,26 @@ class Flow:
     def sinks(self):
         """every call that opens / creates / removes / renames / probes a file system path, with the provenance of the path"""
         out = []
+        self.sink_spans = {}                  # label -> [(start, end, text)] of every recognised sink call
+        self.excused = []                     # probes on a Metadata value (not a path)
         for label, src in self.srcs.items():
             hits = []
+            spans = self.sink_spans.setdefault(label, [])
             for pat in self.SINKS:
                 for m in re.finditer(pat, src):
                     op = m.end() - 1
                     cl = match_close(src, op)
                     hits.append((m.start(), norm(src[m.start():cl + 1]), split_top(src[op + 1:cl])))
+                    spans.append((m.start(), cl, norm(src[m.start():cl + 1])))
             for m in re.finditer(self.PROBES, src):
                 if re.search(r"\|\s*%s\s*\|\s*$" % re.escape(m.group(1)), src[:m.start()]):
-                    continue                              # `|m| m.is_file()`: a Metadata, not a path
+                    # `|m| m.is_file()`: a Metadata, not a path — only as the closure of a combinator applied to fs::metadata(..)
+                    stmt = src[max(src.rfind(";", 0, m.start()), src.rfind("{", 0, m.start())) + 1:m.start()]
+                    if re.search(r"\bfs\s*::\s*(symlink_)?metadata\s*\(", stmt):
+                        self.excused.append((label, m.start(), m.end(), norm(m.group(0))))
+                        continue
                 hits.append((m.start(), norm(m.group(0)), [m.group(1)]))
+                spans.append((m.start(), m.end(), norm(m.group(0))))
             for pos, text, args in sorted(hits):
                 fn = self.enclosing(label, pos)
                 if fn is None:
@@ -489,6 +557,146 @@ class Flow:
                 for a in args[:n]:
                     out.append((label, fn.name, text, self.path_prov(fn, a)))
         return out
+
+    CALL_RE = re.compile(r"(\.\s*)?((?:\w+\s*::\s*)*\w+)\s*(!)?")
+
+    def calls(self, label):
+        """every callee occurrence of one file: (key, position of the name, position of the opening bracket, is method)"""
+        src = blank_strings(self.srcs[label])
+        out, n = [], len(src)
+        for m in self.CALL_RE.finditer(src):
+            if not m.group(1) and m.start() > 0 and (src[m.start() - 1].isalnum() or src[m.start() - 1] == "_"):
+                continue
+            j = m.end()
+            while j < n and src[j] in " \n\t":
+                j += 1
+            if src.startswith("::", j):                  # turbofish
+                k = j + 2
+                while k < n and src[k] in " \n\t":
+                    k += 1
+                if k < n and src[k] == "<":
+                    depth = 0
+                    while k < n:
+                        if src[k] == "<":
+                            depth += 1
+                        elif src[k] == ">" and src[k - 1] != "-":
+                            depth -= 1
+                            if depth == 0:
+                                break
+                        k += 1
+                    j = k + 1
+                    while j < n and src[j] in " \n\t":
+                        j += 1
+            if j >= n:
+                continue
+            name = re.sub(r"\s+", "", m.group(2))
+            segs = name.split("::")
+            if m.group(3):
+                if src[j] not in "([{":
+                    continue
+                key = name + "!"
+            else:
+                if src[j] != "(":
+                    continue
+                if segs[-1] in KEYWORDS or segs[-1].isdigit():
+                    continue
+                if src[max(0, m.start() - 3):m.start()] == "fn " or re.search(r"\bfn\s+$", src[max(0, m.start() - 8):m.start()]):
+                    continue
+                key = ("." + segs[-1]) if m.group(1) else "::".join(segs[-2:])
+            out.append((key, m.start(2), j, bool(m.group(1))))
+        return out
+
+    def census(self):
+        """The closed-world check of the callee names (see PATH_WORDS / KNOWN_CALLEES / SINK_* above).
+        -> (summary dict, [sink calls (label, fn, text)], [edits (label, fn, text, kind)])"""
+        local = {f.name for f in self.fns}
+        closed, ncalls, names, sink_calls, edits = [], 0, set(), [], []
+        for label in self.srcs:
+            src = blank_strings(self.srcs[label])
+            is_closed = re.search(PATH_WORDS, src) is not None
+            if is_closed:
+                closed.append(label)
+            # a file-system function mentioned without being called (passed as a value) cannot be followed
+            for m in re.finditer(r"\b(fs|File|OpenOptions|NamedTempFile|tempfile|Path|PathBuf|env|process|Command|TempDir|DirBuilder)\s*::\s*(\w+)", src):
+                fn = self.enclosing(label, m.start())
+                if fn is None:
+                    continue
+                rest = src[m.end():m.end() + 40].lstrip()
+                if not (rest.startswith("(") or rest.startswith("::")):
+                    die("%s fn %s: `%s` is used as a value, not called — the census cannot follow it" % (label, fn.name, norm(m.group(0))))
+            for key, pos, op, is_method in self.calls(label):
+                fn = self.enclosing(label, pos)
+                fname = fn.name if fn is not None else "-"
+                ncalls += 1
+                names.add(key)
+                last = key.lstrip(".").rstrip("!").split("::")[-1]
+                is_sink = key.startswith(SINK_PREFIXES) or key in SINK_PATHS or (is_method and key in SINK_METHODS)
+                if is_sink and fn is not None:
+                    cover = [t for (a, b, t) in self.sink_spans.get(label, []) if a <= pos <= b]
+                    exc = [t for (l, a, b, t) in self.excused if l == label and a <= pos <= b]
+                    if exc:
+                        pass
+                    elif not cover:
+                        die("%s fn %s: the call of `%s` reaches the file system but is not among the sinks whose path is derived "
+                            "(spelled in a way c17_flow.py does not know)" % (label, fname, key))
+                    else:
+                        sink_calls.append((label, fname, min(cover, key=len)))
+                if not is_closed:
+                    continue
+                known = key in KNOWN_CALLEES or is_sink or (not is_method and not key.endswith("!") and last in local) \
+                    or (is_method and last in local) or (not is_method and last[:1].isupper())
+                if not known:
+                    die("%s fn %s: unknown callee `%s` in a file that handles paths — review it and add it to KNOWN_CALLEES "
+                        "(or to SINK_* if it takes a path)" % (label, fname, key))
+                if is_method and key in EDIT_METHODS and fn is not None and fn.name not in BUILDER_FNS:
+                    cl = match_close(src, op)
+                    r0 = receiver_start(src, src.rfind(".", 0, pos + 1))
+                    real = self.srcs[label]
+                    text = norm(real[r0:cl + 1])
+                    edits.append((label, fname, text, self.edit_kind(fn, real, r0, src.rfind(".", 0, pos + 1), split_top(real[op + 1:cl]))))
+        return ({"files": len(self.srcs), "closed": closed, "calls": ncalls, "names": len(names)}, sink_calls, edits)
+
+    def edit_kind(self, fn, src, r0, dot, args):
+        """what kind of value an in-place edit (.push / .pop / .set_file_name ...) is applied to"""
+        recv = norm(src[r0:dot])
+        a0 = norm(args[0]) if args else ""
+        if re.match(r"'(\\.|[^'\\])'$", a0) and recv.count("(") == 0:
+            return "EkString"                          # a char: String::push (PathBuf::push takes AsRef<Path>)
+        mm = re.match(r"[&*]*(\w+)$", recv)
+        if not mm:
+            return "EkUnknown"
+        base = mm.group(1)
+        def of_type(t):
+            if re.match(r"(&)?(mut)?Vec<PathBuf>$", t):
+                return "rootlist"
+            if "Path" in t or "OsStr" in t:
+                return "EkPath"
+            if re.match(r"(&)?(mut)?(String|str)$", t) or re.match(r"(&)?(mut)?(Vec|HashMap|BTreeMap|HashSet)<", t):
+                return "EkString" if "tring" in t or t.endswith("str") else "EkVec"
+            return None
+        body = fn.body()
+        kind = None
+        binds = re.findall(r"\blet\s+(?:mut\s+)?%s\s*(?::\s*([^=;]*?))?=\s*([^;]*);" % re.escape(base), body)
+        if len(binds) == 1:
+            ty, ex = norm(binds[0][0] or ""), norm(binds[0][1])
+            kind = of_type(ty) if ty else None
+            if kind is None:
+                if re.search(r"\.join\(|PathBuf|Path::|\.parent\(\)|\.to_path_buf\(\)|self\.cache|self\.tmp|self\.paths|current_dir|locate_file|\.with_file_name|\.with_extension", ex):
+                    kind = "EkPath"
+                elif re.match(r"(String::(new|with_capacity|from)\(|format!\()", ex) or re.search(r"\.(to_string|to_owned|into_owned|to_lowercase|to_uppercase)\(\)$", ex):
+                    kind = "EkString"
+                elif re.match(r"(Vec::(new|with_capacity)\(|vec!\[|HashMap::new\()", ex) or re.search(r"\.collect(::<[^;]*>)?\(\)$", ex):
+                    kind = "EkVec"
+        elif not binds:
+            for pn, pt in fn.params:
+                if pn == base:
+                    kind = of_type(pt)
+        if kind == "rootlist":
+            a = self.strip_path(a0)
+            if fn.name == "new" and any(pn == a and pt == "PathBuf" for pn, pt in fn.params):
+                return "EkRootAdded"                   # the constructor adds one of its own root arguments to the list of roots
+            return "EkPath"
+        return kind or "EkUnknown"
 
     def sites(self):
         out = []
@@ -565,6 +773,17 @@ def main():
         rows.append('  {| k_file := "%s"; k_fn := "%s"; k_text := "%s"; k_parents := %d;\n     k_paths := [%s]; k_why := "%s" |}'
                     % (a_, b_, c_.replace('"', '""'), n, "; ".join(t for t, _ in terms), why))
     o.append(";\n".join(rows))
+    o.append("].")
+    summary, sink_calls, edits = fl.census()
+    o += ["", "(* ---- the callee census over the whole crate (%d files, %d calls, %d distinct callee names) ----" % (summary["files"], summary["calls"], summary["names"]),
+          "   files that mention a path / file-system word: every callee name in them is on the reviewed list of the translator *)",
+          "Definition g_closed_files : list string := [%s]." % "; ".join('"%s"' % c for c in summary["closed"]),
+          "(* every call, anywhere in the crate, of a callee that reaches the file system; each is one of g_fs_sinks *)",
+          "Definition g_sink_calls : list (string * string * string) := ["]
+    o.append(";\n".join('  ("%s", "%s", "%s")' % (a, b, c.replace('"', '""')) for a, b, c in sink_calls))
+    o += ["].", "(* every in-place edit (.push / .pop / .set_file_name / .with_extension ...) outside the compiled builders, in those files,",
+          "   with the kind of its receiver *)", "Definition g_path_edits : list g_edit := ["]
+    o.append(";\n".join('  {| e_file := "%s"; e_fn := "%s"; e_text := "%s"; e_kind := %s |}' % (a, b, c.replace('"', '""'), k) for a, b, c, k in edits))
     o.append("].")
     o += ["", "(* the same table without Coq strings (fn name as bytes), for the extracted driver *)",
           "Definition g_flow_table : list (list Z * g_root * g_arg) := ["]
